@@ -44,6 +44,9 @@ type c14Case struct {
 	// (and is turned away), is then given the current ones through SetUsername/SetPassword and dials
 	// again: the second connection is judged with the current credentials and its own channel binding.
 	SetBetween bool `json:"set_between,omitempty"`
+	// SessionCache: the caller's tls.Config has a ClientSessionCache: the second connection of the Client
+	// (Retry, SetBetween) resumes the TLS session of the first and has a channel binding of its own.
+	SessionCache bool `json:"session_cache,omitempty"`
 	// Debug: the Client runs with debug logging on (into a logger that discards): what is logged must
 	// not change what is sent.
 	Debug bool `json:"debug,omitempty"`
@@ -115,6 +118,7 @@ func c14Run(c c14Case) []*core.Violation {
 	if c.TLS != "none" {
 		caps = append([]string{"STARTTLS"}, caps...)
 		cfg.TLS = "mandatory"
+		cfg.SessionCache = c.SessionCache
 		maxv = tls.VersionTLS12
 		if c.TLS == "1.3" {
 			maxv = tls.VersionTLS13
@@ -220,6 +224,9 @@ func c14Run(c c14Case) []*core.Violation {
 		}
 		d.Wait(2 * time.Second)
 		sess := d.Sessions[len(d.Sessions)-1]
+		if sess.TLSState != nil && sess.TLSState.DidResume {
+			rec.AddExtra("authentications_over_a_resumed_tls_session", 1)
+		}
 		tr := sess.Transcript(25)
 		for _, v := range sess.Violations {
 			if v.Key == "auth-cancel-after-final-reply" {
@@ -368,6 +375,12 @@ func c14Gen(t *rapid.T) c14Case {
 		c.PrevPass = c.Pass + "-old"
 	}
 	c.SetBetween = rapid.IntRange(0, 4).Draw(t, "setbetween") == 0
+	if c.TLS != "none" {
+		c.SessionCache = rapid.Bool().Draw(t, "sessioncache")
+		if strings.HasSuffix(c.Mech, "PLUS") && c.SessionCache {
+			c.SetBetween = c.SetBetween || rapid.Bool().Draw(t, "setbetweenplus")
+		}
+	}
 	c.Debug = rapid.IntRange(0, 3).Draw(t, "debug") == 0
 	if c.Retry && rapid.Bool().Draw(t, "othersalt") {
 		c.Salt2 = rapid.SliceOfN(rapid.Byte(), 1, 32).Draw(t, "salt2")
